@@ -83,6 +83,12 @@ fn main() {
     if let Some(n) = arg(&args, "--max-jobs").and_then(|s| s.parse::<usize>().ok()) {
         jobs.truncate(n);
     }
+    if arg(&args, "--list-jobs").is_some() {
+        for j in &jobs {
+            println!("{}\t{}", if j.mandatory { "M" } else { "-" }, j.name);
+        }
+        return;
+    }
     // ---- replay mode: one recorded counterexample, pinned
     if let Some(path) = arg(&args, "--replay") {
         let text = std::fs::read_to_string(&path).expect("replay file");
